@@ -426,6 +426,13 @@ def run(ctx):
                 total, reserved = (24, 1) if client != 1 else (20, 0)     # 6 resp. 5 addresses per client
                 cases.extend(dict(kind='srv', what=what, client=client, logins=4, total=total, reserved=reserved,
                                   hist=h + [['B']], tiebreak='all') for h in hs)
+    def zero(whats, hs):
+        """client 0, nothing reserved, no hardware channels: the spaces start at index 0, an ordinary id"""
+        for what in whats:
+            cases.extend(dict(kind='srv', what=what, client=0, logins=4, total=24, reserved=0, io=0, hist=h + [['B']],
+                              tiebreak='all') for h in hs)
+    zero(SPACES, histories(5 if thorough else 4, 3))
+    zero(('abus',), histories(6 if thorough else 5, 3))
     if thorough:
         depth, sdepth, fdepth = 7, 6, 5
         raw([(5, 1, 5), (6, 0, 12), (6, 2, 0)], histories(7, 3))
@@ -467,7 +474,7 @@ def run(ctx):
     for i in range(nrand // 2):
         client = rnd.choice([0, 1, 2, 3])
         per = rnd.choice([8, 12, 16])
-        cases.append(dict(kind='srv', what=rnd.choice(SPACES), client=client, logins=4, total=4 * per + rnd.randint(0, 3),
+        cases.append(dict(kind='srv', what=rnd.choice(SPACES), client=client, logins=4, total=4 * per + rnd.randint(0, 3), io=rnd.choice([4, 4, 0, 2]),
                           reserved=rnd.choice([0, 0, 1, 2]), tiebreak='random', seed=rnd.randrange(1 << 30),
                           hist=random_history(rnd, rnd.randint(20, 80), 5)))
     nbulk0 = len(cases)
@@ -515,7 +522,8 @@ def run(ctx):
                        'free of a failed alloc), free(None)} x every tie-break on raw ContiguousBlockAllocator(size,pos,addr_offset) '
                        'for sizes 4-8, pos 0-2, offsets 0/size/2*size/3*size; fill-then-fragment family (all sequences of %d '
                        'frees/re-allocs after filling with 1-blocks); all histories of up to %d calls through Server(client 0,1,3) '
-                       '-> AudioBus/ControlBus/Buffer(+new_consecutive); blocks() after every history; bulk family: all histories of 4(5) calls '
+                       '-> AudioBus/ControlBus/Buffer(+new_consecutive), also with zero hardware channels + client 0 + nothing reserved (spaces '
+                       'starting at index 0); blocks() after every history; bulk family: all histories of 4(5) calls '
                        'over {alloc, free, Buffer.free_all, blocks()} with reserved_buffers 2/3(/4) and client offsets, each closed by '
                        'free_all + a request for the whole partition; registration sweep: local max_logins 1/2/4/8 x logins reported by '
                        'the server none/2/4/8 x assigned ids 0,1,last x 3 spaces, two Server objects per layout, via the login handler '
